@@ -96,6 +96,11 @@ fn get_call_signature_param_location(
         document = semantic_model.get_document_by_file_id(sig_file_id);
 
         if let Some(root) = semantic_model.get_root_by_file_id(sig_file_id) {
+            // the signature may belong to another file that was edited after this file was analysed:
+            // its stored position can lie beyond the end of the new text, where `token_at_offset` panics
+            if sig_position > root.syntax().text_range().end() {
+                return None;
+            }
             let token = match root.syntax().token_at_offset(sig_position) {
                 TokenAtOffset::Single(token) => token,
                 TokenAtOffset::Between(left, right) => {
